@@ -57,11 +57,21 @@ structure Routine where
   fixedTarget : Bool := false
   body : Option Stmts := none
 
-/-- one source file. `imports`: per import statement the key of the FILE it resolves to (`none` = not found, also
-when the path names a directory); `routines` in source order. `isSsbScript`: the `//?: is-ssb-script` attribute is
+/-- one import statement, as `_resolve_imported_file` sees it. Keys are normalised paths of the world (the harness
+does the path arithmetic: joining with the importing file's directory and the lookup paths, `..`, absolute paths).
+`direct`: the import starts with `.` or `/` and names exactly one path; `lookup`: any other import, one candidate per
+lookup path, in the order of the lookup paths (none when there is no lookup path); `invalid`: a lookup-style import with
+a `.` or `..` component ("must not contain relative paths"). -/
+inductive Import where
+  | direct (cand : String)
+  | lookup (cands : List String)
+  | invalid
+deriving Repr, DecidableEq, Inhabited
+
+/-- one source file. `imports`: the import statements in source order; `routines` in source order. `isSsbScript`: the `//?: is-ssb-script` attribute is
 set, `compile` hands the text to the SsbScript compiler (the compiled file only; an imported file is rejected). -/
 structure File where
-  imports : List (Option String) := []
+  imports : List Import := []
   macros : List Macro := []
   routines : List Routine := []
   isSsbScript : Bool := false
@@ -70,6 +80,19 @@ structure File where
 abbrev World := List (String × File)
 
 def World.get? (w : World) (k : String) : Option File := List.lookup k w
+
+/-- a path is importable iff it is a file of the world (`os.path.isfile`; directories are not files) -/
+def World.isFile (w : World) (k : String) : Bool := (w.get? k).isSome
+
+/-- `_resolve_imported_file` for ONE import statement: a direct import is its path if that is a file; a lookup import is
+the first candidate that is a file (`abs_path = None` … `break`), none if no lookup path has it -/
+def Import.resolve (w : World) : Import → Option String
+  | .direct c => if w.isFile c then some c else none
+  | .lookup cs => cs.find? w.isFile
+  | .invalid => none
+
+/-- all import statements of a file, each resolved on its own -/
+def File.resolved (w : World) (f : File) : List (Option String) := f.imports.map (Import.resolve w)
 
 /-- exception classes. `other`: anything outside the documented three (ParseError cannot arise from an AST). -/
 inductive ErrKind where
